@@ -28,6 +28,34 @@ type c12Case struct {
 	Quiet  bool   `json:"quiet"`
 	// Stdin: the input comes from a pipe on standard input (zcat old.log.gz | dgrep -regex ...) instead of a file
 	Stdin bool `json:"input_from_stdin_pipe,omitempty"`
+	// Big: the probe is the 3000-line file of c12BigProbe (matches only at lines 1500 and 3000), so that large option
+	// values have something to act on
+	Big bool `json:"big_probe_file,omitempty"`
+}
+
+// c12BigProbe: 3000 lines, "HIT" at lines 1500 and 3000 and nowhere else.
+func c12BigProbe() (string, []string) {
+	var ls []string
+	for i := 1; i <= 3000; i++ {
+		if i%1500 == 0 {
+			ls = append(ls, fmt.Sprintf("HIT %d", i))
+		} else {
+			ls = append(ls, fmt.Sprintf("n%04d", i))
+		}
+	}
+	return WriteScratch("c12/big.log", strings.Join(ls, "\n")+"\n"), ls
+}
+
+// c12BigCases: option values as large as the protocol accepts (up to 100000), end to end over the big probe.
+func c12BigCases() (out []c12Case) {
+	for _, b := range []int{0, 99, 101, 1023, 1024, 1025, 1499, 2000, 4097, 65537, 100000} {
+		for _, a := range []int{0, 1025, 100000} {
+			for _, m := range []int{0, 1} {
+				out = append(out, c12Case{Regex: "^HIT", Before: b, After: a, Max: m, Plain: true, Big: true})
+			}
+		}
+	}
+	return
 }
 
 var c12ProbeLines []string
@@ -52,6 +80,11 @@ func clamp0(v int) int {
 }
 
 func c12Run(c *Ctx, cs c12Case, probe string) {
+	if cs.Big {
+		saved := c12ProbeLines
+		defer func() { c12ProbeLines = saved }()
+		probe, c12ProbeLines = c12BigProbe()
+	}
 	re, err := regexp.Compile(cs.Regex)
 	if err != nil {
 		return // not accepted by the client either
@@ -306,14 +339,14 @@ func init() {
 		Rule: "regexes = all sequences of <=2 (quick) / <=3 (thorough) tokens over 22 tokens (space, ':', ';', ',', '%', '=', '|', non-ASCII incl. bytes 0xAC, anchors, quotes, 'base64%', 'regex:', tab) that compile, " +
 			"x invert x 4 option sets, plus 5 regexes x invert x {0,1,7,-1}^3 before/after/max x plain x quiet; each case runs the real GrepClient -> serverless connector -> ServerHandler -> reader end to end " +
 			"under the controlled scheduler on a ~200-line probe file (all <=2-token lines over the ASCII part of the alphabet); oracle: lines output == lines selected by regexp.MustCompile(pattern) applied directly " +
-			"(with invert and the grep-context reference of C03; negative option values mean 'not set'); plus 6 dmap sessions whose line filter is derived from the query's table (tables T, U, TT, lower-case spelling, no table, generickv) over a log mixing tables and foreign lines; non-trivial = the pattern selects some but not all probe lines",
+			"(with invert and the grep-context reference of C03; negative option values mean 'not set'); plus before in {0,99,101,1023,1024,1025,1499,2000,4097,65537,100000} x after in {0,1025,100000} x max in {0,1} end to end over a 3000-line file with two matching lines; plus 6 dmap sessions whose line filter is derived from the query's table (tables T, U, TT, lower-case spelling, no table, generickv) over a log mixing tables and foreign lines; non-trivial = the pattern selects some but not all probe lines",
 		Assumptions: []string{"canonical schedule; single file per session (so C02's findings cannot leak in); probe lines avoid byte 0xAC and a leading '.' (C01's findings)"},
 		Run: func(c *Ctx) {
 			probe := c12Probe()
 			if c.Shard == 0 {
 				c12Mapr(c)
 			}
-			for _, cs := range c12Cases(c.Thorough()) {
+			for _, cs := range append(c12BigCases(), c12Cases(c.Thorough())...) {
 				if !c.Mine() {
 					continue
 				}
